@@ -297,15 +297,18 @@ class KGen:
         """oneof / or / unknown constraints over ground literals; the rest gets a definite initial value"""
         rng, em, p = self.rng, self.em, self.problem
         n = len(self.gfl)
-        for _ in range(20):
+        for _ in range(40):
             cons = []
-            for _c in range(rng.choice([1, 1, 2, 2, 3])):
+            # the constraints draw their literals from a small pool of atoms, so that groups overlap (an atom in two
+            # oneof groups, in a oneof and an or, positively and negatively, ...)
+            pool = rng.sample(self.gfl, min(n, rng.choice([2, 3, 3, 4])))
+            for _c in range(rng.choice([1, 2, 2, 3])):
                 r = rng.random()
-                if r < 0.35:
-                    cons.append(("unknown", [rng.choice(self.gfl)]))
+                if r < 0.25:
+                    cons.append(("unknown", [rng.choice(pool)]))
                 else:
-                    grp = rng.sample(self.gfl, min(n, rng.choice([2, 2, 3])))
-                    lits = [em.Not(x) if rng.random() < 0.2 else x for x in grp]
+                    grp = rng.sample(pool, min(len(pool), rng.choice([2, 2, 3])))
+                    lits = [em.Not(x) if rng.random() < 0.3 else x for x in grp]
                     cons.append(("oneof" if r < 0.7 else "or", lits))
             hidden = []
             for _k, lits in cons:
